@@ -50,9 +50,11 @@ type SPConfig struct {
 	AllowMissing    bool
 	MaxBody         int64
 
-	EncStyle  KeyStyle
-	EncKeyIdx int
-	EncCert   *Cert
+	EncStyle   KeyStyle
+	EncKeyIdx  int
+	EncCert    *Cert
+	EncCertRaw []byte // when non-nil: the key store hands out these bytes instead (empty / unparsable certificate faults)
+	EncKeyErr  error  // when non-nil: the field key store fails
 	SigStyle  KeyStyle // KeyNone = no separate signing key
 	SigKeyIdx int
 	SigCert   *Cert
@@ -112,7 +114,7 @@ func NewSPNode(cfg *SPConfig, simNow func() time.Time) (*SPNode, error) {
 		}
 		sp.IDPCertificateStore = cfg.Store
 	}
-	if err := applyKey(sp, cfg.EncStyle, cfg.EncKeyIdx, cfg.EncCert, false); err != nil {
+	if err := applyKeyRaw(sp, cfg.EncStyle, cfg.EncKeyIdx, cfg.EncCert, false, cfg.EncCertRaw, cfg.EncKeyErr); err != nil {
 		return nil, err
 	}
 	if err := applyKey(sp, cfg.SigStyle, cfg.SigKeyIdx, cfg.SigCert, true); err != nil {
@@ -123,6 +125,10 @@ func NewSPNode(cfg *SPConfig, simNow func() time.Time) (*SPNode, error) {
 }
 
 func applyKey(sp *saml2.SAMLServiceProvider, st KeyStyle, keyIdx int, cert *Cert, signing bool) error {
+	return applyKeyRaw(sp, st, keyIdx, cert, signing, nil, nil)
+}
+
+func applyKeyRaw(sp *saml2.SAMLServiceProvider, st KeyStyle, keyIdx int, cert *Cert, signing bool, raw []byte, kerr error) error {
 	if st == KeyNone {
 		return nil
 	}
@@ -130,6 +136,9 @@ func applyKey(sp *saml2.SAMLServiceProvider, st KeyStyle, keyIdx int, cert *Cert
 	var der []byte
 	if cert != nil {
 		der = cert.DER
+	}
+	if raw != nil {
+		der = raw
 	}
 	field := func() error {
 		var ks dsig.X509KeyStore
@@ -139,7 +148,7 @@ func applyKey(sp *saml2.SAMLServiceProvider, st KeyStyle, keyIdx int, cert *Cert
 			if k.RSA == nil {
 				return fmt.Errorf("field key store needs an RSA key")
 			}
-			ks = &FieldKeyStore{Key: k.RSA, Cert: der}
+			ks = &FieldKeyStore{Key: k.RSA, Cert: der, Err: kerr}
 		}
 		if signing {
 			sp.SPSigningKeyStore = ks
